@@ -10,9 +10,17 @@
 
 #include <unordered_set>
 
+#if VRT_ASAN
+#include <sanitizer/lsan_interface.h>
+#endif
+
 namespace vrt {
 
 Args g_args;
+static long g_leakEvery = 1;
+void leakCheckEvery(long n) {
+  g_leakEvery = n;
+}
 
 // ---------------------------------------------------------------- output
 namespace {
@@ -151,6 +159,20 @@ void caseBegin(long idx, const std::string& key, const J& spec) {
 }
 void caseEnd(const J& stats, const std::string& ntSig, const std::vector<std::string>& classes) {
   long idx = g_curCase.load(std::memory_order_relaxed);
+#if VRT_ASAN
+  // Attribute leaks to the case that produced them. LeakSanitizer re-reports every leak on each
+  // check, so after the first one the process ends and the driver continues in a fresh process.
+  {
+    static long sinceCheck = 0;
+    if (g_leakEvery > 0 && ++sinceCheck >= g_leakEvery) {
+      sinceCheck = 0;
+      if (__lsan_do_recoverable_leak_check()) {
+        violation("LeakSanitizer: memory allocated during this case was leaked (report in stderr)", J(), "leak");
+        _exit(6);
+      }
+    }
+  }
+#endif
   J j;
   j.kv("ev", "case_end").kv("case", idx).kv("stats", stats).kv("nt", ntSig).arr("cls", classes);
   j.kv("wall_s", nowSeconds() - g_caseStart);
